@@ -110,3 +110,8 @@ Local Open Scope Q_scope.
 Example C09_example :
   noise_var1 opsQ [1; -1] [1; 3; 2] == 5 # 2 /\ mean opsQ 2 [[1; 2]; [3; 6]] = [2; 4].
 Proof. split; vm_compute; reflexivity. Qed.
+(* the translated source, executed *)
+Example C09_source_example :
+  gen_noise_var1 opsQ (fun _ => [1; -1]) 1 [1; 3; 2] = Some (5#2) /\ gen_noise_var1 opsQ dgetQ 0 [1; 3; 2] = None /\
+  gen_noise_var1 opsQ dgetQ 11 [1; 3; 2] = None /\ length (dgetQ 3) = 4%nat.
+Proof. vm_compute. repeat split; reflexivity. Qed.
